@@ -367,6 +367,15 @@ class IkeSa(object):
                            ''.format(self.spi_i.hex(), self.spi_r.hex()))
             return None
 
+        # once this IKE_SA has keys, a message that is not protected with them must not have any effect. The only
+        # one still served is a retransmitted IKE_SA_INIT request, which gets the stored response again
+        if self.peer_crypto is not None and message.crypto is None:
+            if (message.exchange_type == Message.Exchange.IKE_SA_INIT and message.is_request
+                    and message.message_id == self.peer_msg_id - 1):
+                return self._process_request(message)
+            self.log_warning('Received an unprotected message for an IKE_SA that already has keys. Ignoring')
+            return None
+
         # receiving any kind of message from the peer resets the DPD timer
         self.start_dpd_at = time.time() + self.configuration.dpd
         if message.is_request:
